@@ -5,7 +5,7 @@ CONSTANTS
   MaxParts = 1601
   Weak_BitArrayOpsAssumeEqualSize = FALSE
   Weak_LastCommitNilDeref = FALSE
-  Weak_SetRoundRecreatesRound = FALSE
+  Weak_SetRoundRecreatesRound = TRUE
 INIT TInit
 NEXT TNext
 INVARIANTS TargetedNoCrash TargetedNoHalt
